@@ -732,7 +732,10 @@ def oracle_C04(lines, impl):
                 if ga.startswith("S@") and gb.startswith("S@"):
                     va, vb = h2f(ga.split("@")[2]), h2f(gb.split("@")[2])
                     exp = va * 2.0 ** extra
-                    if va == va and abs(exp) < 1e30 and (abs(va) > 1e-30 or va == 0) and f2h(exp) != f2h(vb) and not (exp == 0 and vb == 0):
+                    # exact scaling is promised barring over/underflow: skip outputs in (or scaled from) the subnormal neighbourhood, and
+                    # a zero that is an underflowed product in one run only (sub-epsilon gains / values are part of the workload)
+                    if va == va and abs(exp) < 1e30 and (abs(va) > 1e-20 or va == 0) and (abs(vb) > 1e-20 or vb == 0) \
+                            and not ((va == 0) != (vb == 0)) and f2h(exp) != f2h(vb) and not (exp == 0 and vb == 0):
                         bad.append((lines[ia], "scaling setpoint and inputs by 2^%d did not scale the output exactly: %r vs %r" % (extra, exp, vb)))
                         break
                 elif ga != gb:
